@@ -112,3 +112,32 @@ Proof.
     + left; auto.
     + exists (LGlob g). left. split; simpl; auto.
 Qed.
+
+(** A review can only decide what the translator left open: a variable the translator saw written
+    outside a critical section stays non-benign whatever the reviewed list says, and a review whose
+    evidence text differs from the current evidence, or whose justification is empty, has no effect. *)
+Lemma unsync_never_benign : forall rs g, g_class g = UnsyncMutable -> benign rs g = false.
+Proof. intros rs g H. unfold benign, effective_class. rewrite H. reflexivity. Qed.
+
+Lemma unclassified_needs_matching_review : forall rs g,
+    g_class g = Unclassified -> benign rs g = true ->
+    exists r, In r rs /\ matches r g = true /\ (r_as r = Immutable \/ r_as r = Synchronised).
+Proof.
+  intros rs g H Hb. unfold benign, effective_class in Hb. rewrite H in Hb.
+  destruct (find (fun r => matches r g) rs) as [r|] eqn:E; try discriminate.
+  apply find_some in E. destruct E as [Hin Hm].
+  exists r. repeat split; auto. destruct (r_as r); try discriminate; auto.
+Qed.
+
+Lemma matching_review_pins_evidence : forall r g,
+    matches r g = true ->
+    r_pkg r = g_pkg g /\ r_name r = g_name g /\ r_evidence r = g_evidence g /\ r_why r <> EmptyString.
+Proof.
+  intros r g H. unfold matches in H.
+  apply andb_true_iff in H. destruct H as [H Hwhy].
+  apply andb_true_iff in H. destruct H as [H Hev].
+  apply andb_true_iff in H. destruct H as [H _].
+  apply andb_true_iff in H. destruct H as [Hp Hn].
+  apply String.eqb_eq in Hp. apply String.eqb_eq in Hn. apply String.eqb_eq in Hev.
+  repeat split; auto. intros E. rewrite E in Hwhy. discriminate.
+Qed.
